@@ -83,6 +83,7 @@ func cmdFunc(args []string) {
 	tq := fs.Int("tq", 3, "first-try timeout (s)")
 	tf := fs.Int("tf", 30, "portfolio timeout (s)")
 	verbose := fs.Bool("v", false, "verbose")
+	doReplay := fs.Bool("replay", false, "replay failures on the real code")
 	fs.Parse(args)
 	p, err := loadProg(envOr("GVC_REPO", "/repo"), envOr("GVC_VERIF", "/verif"), repoPkgs(strings.Split(*pkgs, ",")))
 	if err != nil {
@@ -119,6 +120,11 @@ func cmdFunc(args []string) {
 				fmt.Printf("%s %-8s %-7s %6.2fs %s  [%s]\n", mark, r.Status, r.Solver, r.Secs, r.Ob.Name, r.Ob.Pos)
 				if !r.OK {
 					fmt.Printf("     file %s\n", r.File)
+					if *doReplay {
+						os.MkdirAll("/tmp/gvc_replays", 0o755)
+						f, conf := p.replay(r, "X", "/tmp/gvc_replays", append(append([]string{}, ct.Uses...), r.Ob.Uses...))
+						fmt.Printf("     replay %s confirmed=%v\n", f, conf)
+					}
 				}
 			}
 		}
